@@ -46,6 +46,9 @@ SNIPPETS = [
     ("def f(g):\n    d = g[:, 0]\n    d = d.contiguous().mul_(0.25)\n    return d\n", {('inplace', 'param')}),
     ("def f(x):\n    y = x.float()\n    y += 1\n    return y\n", {('inplace', 'param')}),
     ("def f(x):\n    y = x.clone().mul_(2)\n    return y\n", {('inplace', 'fresh')}),
+    # an integer parameter (it is compared in an if test) may be re-bound; a tensor parameter may not be updated in place
+    ("def f(o_dim, ri_dim):\n    o_dim %= 6\n    if ri_dim < o_dim:\n        o_dim -= 1\n    return o_dim\n", {('inplace', 'scalar')}),
+    ("def f(x, k):\n    x += 1\n    if k == 2:\n        x *= 2\n    return x\n", {('inplace', 'param')}),
     # a dtype written into the source (not taken from an input) - as a creation dtype or as the accumulation dtype of any other call
     ("def f(x):\n    return torch.zeros(3, dtype=torch.float)\n", {('create', 'fixed_dtype')}),
     ("def f(x):\n    return torch.zeros(3, dtype=x.dtype)\n", {('create', 'dtype')}),
